@@ -68,7 +68,9 @@ def check_geometry(np, ce, pts, heights, poly, line_height, scale):
         bad.append(('crop-height', 'coordinate map shape %r' % (coords.shape,)))
         return bad
     Wc = coords.shape[1]
-    if abs(Wc - L * s) > max(2.5, 0.03 * L * s):
+    # the code measures the curve over the integer x positions left..right-1 (one source pixel short) and truncates: the width may
+    # fall short of length x scale by up to one source pixel x scale, plus rounding
+    if abs(Wc - L * s) > max(2.5, 0.03 * L * s, s + 1.5):
         bad.append(('crop-width', 'width %d, baseline length %.1f x scale %.3f = %.1f' % (Wc, L, s, L * s)))
     if Wc < 3:
         return bad
@@ -84,7 +86,16 @@ def check_geometry(np, ce, pts, heights, poly, line_height, scale):
         bad.append(('rows-linear', 'middle row deviates from the line between first and last row by %.2f px' % np.abs(mid - lin).max()))
     # the baseline row (v = 0) lies h0 below the first row; it follows the baseline from its first to its last point
     base = top + (bot - top) * (h0 / (h0 + h1))
-    if np.hypot(*(base[0] - b[0])) > 1.5 or np.hypot(*(base[-1] - b[-1])) > 2.5:
+    # modes that FIT a polynomial (order 1; order 0 with fewer than 4 points falls back to a straight-line fit; order 2 with more than
+    # 3 points) follow the fitted curve: the end points may miss the baseline's by the residual of that fit
+    deg = 1 if (poly == 1 or (poly == 0 and len(b) < 4) or len(b) <= 2) else (2 if poly == 2 else None)
+    resid = 0.0
+    if deg is not None and len(b) > deg + 1:
+        th = math.atan2(b[-1][1] - b[0][1], b[-1][0] - b[0][0])
+        rx = b[:, 0] * math.cos(th) + b[:, 1] * math.sin(th)
+        ry = -b[:, 0] * math.sin(th) + b[:, 1] * math.cos(th)
+        resid = float(np.abs(np.polyval(np.polyfit(rx, ry, deg), rx) - ry).max())
+    if np.hypot(*(base[0] - b[0])) > 1.5 + 1.5 * resid or np.hypot(*(base[-1] - b[-1])) > 2.5 + 1.5 * resid:
         bad.append(('columns-from-first-to-last-point', 'baseline row runs %r..%r, baseline %r..%r' % (base[0].round(1).tolist(), base[-1].round(1).tolist(), b[0].tolist(), b[-1].tolist())))
     d = np.hypot(*(base[1:] - base[:-1]).T)
     if d.max() - d.min() > 0.05 * d.mean() + 0.03:
